@@ -128,11 +128,16 @@ def analyse(run, fi, kind):
     pre = body[: body.index(lp)]
     OFFSET = OUT = None
     for st in pre:
-        if isinstance(st, ast.Assign) and isinstance(st.targets[0], ast.Name):
-            if isinstance(st.value, ast.Constant) and st.value.value == 0:
-                OFFSET = st.targets[0].id
-            if isinstance(st.value, ast.List) and not st.value.elts:
-                OUT = st.targets[0].id
+        tgt = val = None
+        if isinstance(st, ast.Assign) and len(st.targets) == 1 and isinstance(st.targets[0], ast.Name):
+            tgt, val = st.targets[0].id, st.value
+        elif isinstance(st, ast.AnnAssign) and isinstance(st.target, ast.Name) and st.value is not None:
+            tgt, val = st.target.id, st.value
+        if tgt is not None:
+            if isinstance(val, ast.Constant) and val.value == 0 and not isinstance(val.value, bool):
+                OFFSET = tgt
+            if (isinstance(val, ast.List) and not val.elts) or (isinstance(val, ast.Call) and common.is_name(val.func, "list") and not val.args):
+                OUT = tgt
     need(OFFSET and OUT, f"anchor: {fi.fq} initialises an offset (0) and an output list ([]) before the loop")
     rename = {CH: "CH", OFFSET: "OFFSET"}
     val_rw = [(value_src, "VALUE")]
